@@ -671,26 +671,81 @@ def boundary_histories():
     ]
 
 
+def process(chk, batches, counters):
+    """one chunk: run on the real system (unless already run), ask the model, compare, report"""
+    runs, all_lines = [], []
+    for w, ops, tags, stream, pre in batches:
+        steps, lines, owners = evaluate(chk, w, ops, pre)
+        runs.append((w, ops, tags, stream, steps, len(all_lines), len(lines)))
+        all_lines += lines
+    answers = common.driver(all_lines, shards=8)
+    for w, ops, tags, stream, steps, off, nl in runs:
+        res = judge(steps, all_lines[off:off + nl], answers[off:off + nl])
+        reported = set()
+        for st, ds, how in res:
+            op = st["op"]
+            if st["kind"] == "deliver":
+                chk.dist("deliver" + (".engine_raised" if st.get("exc") else ""))
+                chk.count("deliver|" + cj([st["before"], op]), bool(st["lines"]))
+            else:
+                counters["requests"] += 1
+                resp = st["resp"]
+                lab = "%s.%s" % (op["action"] if op["action"] in ACTIONS else "(other action)",
+                                 resp.get("type") or ("ok" if resp["status"] == 200 else resp.get("text", "?")[:24]))
+                chk.dist(w.frontend + "." + lab)
+                if st["kind"] == "frame":
+                    chk.dist("malformed.frame")
+                elif "raw" in op:
+                    chk.dist("malformed.body")
+                if how not in ("ok", "frame"):
+                    chk.dist("model." + how)
+                nontrivial = bool(st["before"]["machines"]) or resp["status"] == 200
+                chk.count("call|" + cj([world_key(w), st["before"], op]), nontrivial)
+                if resp["status"] == 200 and op["action"] in ("UpdateStateMachine", "DescribeStateMachineForExecution",
+                                                             "ListExecutions") and st["before"]["executions"]:
+                    chk.sample({"frontend": w.frontend, "request": op, "response": resp,
+                                "machines_before": sorted(st["before"]["machines"]),
+                                "executions_before": sorted(st["before"]["executions"])})
+            for kind, law, impl, model in ds:
+                if law in reported:
+                    continue
+                reported.add(law)
+                small = shrink(w, ops, st["i"], law) if chk.nreplay < 20 else ops[:st["i"] + 1]
+                case = dict(world_key(w), ops=small, stream=stream)
+                chk.report(kind, case, impl=impl, model=model, law=law, classify=classify)
+
+
 def run(chk):
     logging.disable(logging.CRITICAL)
     quick = chk.tier == "quick"
     chk.lean_stage()
     tmp = tempfile.mkdtemp(prefix="c10-")
+    counters = {"requests": 0}
     try:
         worlds = [World("asyncio", False, tmp), World("blocking", False, tmp), World("asyncio", True, tmp)]
-        batches = []   # (world, ops, tags, stream)
+        # the constants the model hard-codes
+        from asl_workflow_engine import state_engine as se_mod
+        if (se_mod.MAX_STATE_MACHINE_LENGTH, se_mod.MAX_DATA_LENGTH) != (BOUNDARY, 262144):
+            chk.report("impl-differs-from-spec", {"constants": [se_mod.MAX_STATE_MACHINE_LENGTH, se_mod.MAX_DATA_LENGTH]},
+                       impl=[se_mod.MAX_STATE_MACHINE_LENGTH, se_mod.MAX_DATA_LENGTH], model=[BOUNDARY, 262144],
+                       law="definition / input length limits are 1048576 / 262144 characters", classify=classify)
+        batches = []   # (world, ops, tags, stream, steps already run)
         for c in common.load_corpus("C10"):
             for w in worlds:
-                if c.get("frontend") in (None, w.frontend) and bool(c.get("validate_asl", False)) == bool(w.validate_asl):
+                if c.get("frontend") in (None, w.frontend) and \
+                        c.get("validate_asl") in (None, bool(w.validate_asl)):
                     batches.append((w, c["ops"], None, "corpus", None))
         chk.cov["streams"]["corpus"] = len(batches)
         for h in boundary_histories():
             for w in worlds[:2]:
                 batches.append((w, h, None, "boundary", None))
-        nseq = 1500 if quick else 30000
+        chk.cov["streams"]["boundary"] = 2 * len(boundary_histories())
+        process(chk, batches, counters)
+        nseq = 1500 if quick else 12000
         maxlen = 12 if quick else 40
         g = Gen(chk.rng)
         nrand = 0
+        batches = []
         for s in range(nseq):
             n = chk.rng.randint(4, maxlen)
             g.p_bad = chk.rng.choice([0.03, 0.10, 0.10, 0.25])
@@ -702,61 +757,20 @@ def run(chk):
             batches.append((ws[0], ops, tags, "random", first.steps))
             batches.append((ws[1], ops, tags, "random", None))
             nrand += 2
+            if len(batches) >= 600:
+                process(chk, batches, counters)
+                batches = []
+        process(chk, batches, counters)
         chk.cov["streams"]["random_histories"] = nrand
-        chk.cov["streams"]["boundary"] = 2 * len(boundary_histories())
-
-        # run everything on the real system, collect the model lines, ask the model once
-        runs, all_lines = [], []
-        for w, ops, tags, stream, pre in batches:
-            steps, lines, owners = evaluate(chk, w, ops, pre)
-            runs.append((w, ops, tags, stream, steps, len(all_lines), len(lines)))
-            all_lines += lines
-        answers = common.driver(all_lines, shards=8)
-
-        nreq = 0
-        for w, ops, tags, stream, steps, off, nl in runs:
-            res = judge(steps, all_lines[off:off + nl], answers[off:off + nl])
-            reported = set()
-            for st, ds, how in res:
-                op = st["op"]
-                if st["kind"] == "deliver":
-                    chk.dist("deliver" + (".engine_raised" if st.get("exc") else ""))
-                    chk.count("deliver|" + cj([st["before"], op]), bool(st["lines"]))
-                else:
-                    nreq += 1
-                    resp = st["resp"]
-                    lab = "%s.%s" % (op["action"] if op["action"] in ACTIONS else "(other action)",
-                                     resp.get("type") or ("ok" if resp["status"] == 200 else resp.get("text", "?")[:24]))
-                    chk.dist(w.frontend + "." + lab)
-                    if st["kind"] == "frame":
-                        chk.dist("malformed.frame")
-                    elif "raw" in op:
-                        chk.dist("malformed.body")
-                    if how not in ("ok", "frame"):
-                        chk.dist("model." + how)
-                    nontrivial = bool(st["before"]["machines"]) or resp["status"] == 200
-                    chk.count("call|" + cj([world_key(w), st["before"], op]), nontrivial)
-                    if resp["status"] == 200 and op["action"] in ("UpdateStateMachine", "DescribeStateMachineForExecution",
-                                                                 "ListExecutions") and st["before"]["executions"]:
-                        chk.sample({"frontend": w.frontend, "request": op, "response": resp,
-                                    "machines_before": sorted(st["before"]["machines"]),
-                                    "executions_before": sorted(st["before"]["executions"])})
-                for kind, law, impl, model in ds:
-                    if (law,) in reported:
-                        continue
-                    reported.add((law,))
-                    small = shrink(w, ops, st["i"], law) if chk.nreplay < 20 else ops[:st["i"] + 1]
-                    case = dict(world_key(w), ops=small, stream=stream)
-                    chk.report(kind, case, impl=impl, model=model, law=law, classify=classify)
-        chk.cov["streams"]["requests"] = nreq
+        chk.cov["streams"]["requests"] = counters["requests"]
         chk.cov["rule"] = (
-            "histories of 3..%d operations (the nine actions, engine deliveries of recorded start events, unknown "
+            "histories of 4..%d operations (the nine actions, engine deliveries of recorded start events, unknown "
             "actions, raw / non-object / non-UTF-8 bodies, bad frames) over 3 machine names x 2 accounts x 2 execution "
-            "names; every argument independently bad (name, ARN, JSON text, JSON type, logging configuration, "
-            "missing) with probability 3-25%%; each history on the asyncio front end (validate_asl off, or on for "
-            "every fourth) and on the blocking front end; every request is compared with Api.step started from the "
-            "implementation's own store contents; a request is non-trivial when the store is non-empty or it "
-            "succeeds; distinct = distinct (front end, store contents, request)" % maxlen)
+            "names, ARNs aimed at what exists 4 times out of 5; every argument independently bad (name, ARN, JSON text, "
+            "JSON type, logging configuration, missing) with probability 3-25%%; each history on the blocking front end "
+            "and on the asyncio front end (validate_asl on for every fourth); every request is compared with Api.step "
+            "started from the implementation's own store contents; a request is non-trivial when the store is "
+            "non-empty or it succeeds; distinct = distinct (front end, store contents, request)" % maxlen)
         chk.cov["exhaustive"] = False
         chk.assumptions.append("C10: the wall clock, uuid4 and the statelint verdict are inputs of the reference model "
                                "(patched / measured from outside); engine deliveries are environment steps; HTTP framing, "
